@@ -530,12 +530,13 @@ static void fault_tables(void)
 
 /* ------------------------------------------------------------------ synchronisation under allocation failure */
 enum { R_DELTA_OK, R_DELTA_FAIL, R_RELOAD_OK, R_RELOAD_FAIL, R_RELOAD_EMPTY, R_DELTA_BULK, R_DELTA_BULK_FAIL, R_RELOAD_BULK,
-       R_DELTA_FAIL_V4, R_DELTA_FAIL_V6, R__N };
+       R_DELTA_FAIL_V4, R_DELTA_FAIL_V6, R_DELTA_FAIL_KEY, R__N };
 static const char *R_NAME[R__N] = {"delta ok", "delta failing at its last PDU (rollback)", "reload with a new set", "reload failing (duplicate)", "reload with the empty set",
 				   "delta of 3 x 101 records (PDU stores grow)", "delta of 3 x 101 records failing at its last PDU (rollback)",
 				   "reload with 3 x 101 records",
 				   "delta failing at an IPv4 PDU after two withdrawals (rollback re-adds)",
-				   "delta failing at an IPv6 PDU after an IPv4 withdrawal (rollback across families)"};
+				   "delta failing at an IPv6 PDU after an IPv4 and an IPv6 withdrawal (rollback across families)",
+				   "delta failing at a router key after withdrawals in all three kinds (rollback re-adds a key, an IPv6 and an IPv4 record)"};
 
 /* numbered records outside the universe: 101 per family, one more than the step by which the PDU stores grow */
 #define BULK_N 101
@@ -621,8 +622,16 @@ static int do_sync(int kind)
 		break;
 	case R_DELTA_FAIL_V6:
 		cache_put_record(&b, 1, 0, 0);
+		cache_put_record(&b, 1, 3, 0);
 		cache_put_record(&b, 1, 4, 1);
-		cache_put_record(&b, 1, 4, 1); /* duplicate IPv6: the undo crosses into the IPv4 PDUs */
+		cache_put_record(&b, 1, 4, 1); /* duplicate IPv6: the undo re-adds record 3 and crosses into the IPv4 PDUs */
+		break;
+	case R_DELTA_FAIL_KEY:
+		cache_put_record(&b, 1, 1, 0);
+		cache_put_record(&b, 1, 3, 0);
+		cache_put_record(&b, 1, U_NPFX + 0, 0);
+		cache_put_record(&b, 1, U_NPFX + 0, 1);
+		cache_put_record(&b, 1, U_NPFX + 0, 1); /* duplicate key: the undo removes and re-adds key 0, then re-adds records 3 and 1 */
 		break;
 	case R_DELTA_BULK_FAIL:
 		put_bulk(&b);
